@@ -652,6 +652,117 @@ def rule_seal_cycle(ctx):
     ctx.floor(rule, "readers of the seals table", n, 4)
 
 
+# str slices whose byte bounds mention a non-zero constant: each is audited (the constant is not a byte offset, or the
+# bytes skipped are ASCII by the token definition). key = function -> (constants, reason)
+SLICE_CONSTANTS = {
+    "zydeco_syntax::impls::remove_prefix": ({"1"}, "strips the one-byte ASCII sigil (`+` / `.`) that the Ctor / Dtor token definitions require"),
+    "zydeco_surface::textual::trivia::comment::CommentBlocks::<'source>::opening_indentation":
+        ({"10", "1"}, "rfind('\\n') + 1: the byte after an ASCII newline"),
+    "zydeco_surface::textual::trivia::comment::LineSeparation::whitespace_prefix": ({"1"}, "the constant is the closure-capture arity, the bound is a char_indices index"),
+    "zydeco_surface::textual::trivia::comment::LineSeparation::whitespace_suffix": ({"1"}, "index + len_utf8 of the character found by char_indices"),
+    "zydeco_utils::span::FileInfo::trans_span1": ({"1"}, "`line + 1` indexes line_starts; the bounds are recorded line starts"),
+}
+_STR_SLICE = (r"str::traits::<impl core::ops::index::Index<.*> for str>::index$|core::str::<impl str>::split_at$|"
+              r"for alloc::string::String>::index$")
+
+
+def rule_str_slices(ctx):
+    from .. import symval
+    rule = "str-slices"
+    facts = ctx.facts
+    ctx.rule(rule, "the byte bounds of every panicking string slice (`&s[a..b]`, split_at) in non-test code come from the text itself "
+                   "(lengths, search results, char_indices, token spans): the symbolic value of the range that reaches the slice "
+                   "(value flow over MIR) mentions no non-zero constant, except at the audited sites. A constant byte offset after a "
+                   "character-class test splits a multi-byte character and panics (`&line[1..]` after `starts_with(char::is_whitespace)`)")
+    ct = facts.calls_to()
+    fns = set()
+    for k, cs in ct.items():
+        if re.search(_STR_SLICE, k):
+            for c in cs:
+                if "::tests::" in c["from"] or c["loc"][0].endswith("tests.rs") or "/out/" in c["loc"][0] or not c["loc"][0].startswith(("lang/", "cli/", "editor/")):
+                    continue
+                fns.add(c["from"])
+    n = 0
+    for fn in sorted(fns):
+        m = facts.mir(fn)
+        if m is None:
+            continue
+        sv = symval.SymValues(M.Body(fn, m))
+        base = fn.split("::{closure")[0]
+        for bb, f, args in sv.call_args(lambda f: re.search(_STR_SLICE, f)):
+            n += 1
+            t = " ".join(args[1:])
+            nz = set(x for x in re.findall(r"(?<![\w.$@#])(\d+)(?![\w.])", t) if x != "0")
+            loc = [facts.bodies()[fn]["loc"][0], M.Body(fn, m).term(bb).get("ln")]
+            inv = SLICE_CONSTANTS.get(base)
+            if not sv.stable or "phi@" in t:
+                ctx.violation(rule, "%s:unknown-bound" % M.short_fn(base), "%s slices a string with a bound that differs between paths "
+                              "(%s): not classified" % (fn, t[:160]), loc)
+            elif not nz:
+                ctx.ok(rule, "%s@%s" % (M.short_fn(base), n), {"bounds": t[:200]})
+            elif inv and nz <= inv[0]:
+                ctx.ok(rule, "%s@%s" % (M.short_fn(base), n), {"constants": sorted(nz), "audited": inv[1]})
+            else:
+                ctx.violation(rule, "%s:constant-offset:%s" % (M.short_fn(base), "+".join(sorted(nz - (inv[0] if inv else set())))),
+                              "%s slices a string at a bound built from the constant(s) %s (%s): a byte offset that does not come "
+                              "from the text can fall inside a multi-byte character and panic" % (fn, sorted(nz), t[:200]), loc)
+    ctx.floor(rule, "string slices classified", n, 12)
+
+
+# partial helpers of the shared syntax layer (zydeco_syntax: names, literals, text, spans): functions with a panic path of their own.
+# The front end may call only the audited ones; the others are meant for values the interpreter has already made fit.
+PARTIAL_OK = {
+    "zydeco_syntax::fmt::Ugly::ugly": "renders a typed-syntax document at unbounded width into a String: fmt::Write on String cannot fail",
+    "zydeco_syntax::span::span_via_back": "every id of a phase arena has a textual back-map entry (allocation inserts it)",
+}
+
+
+def rule_partial_helpers(ctx):
+    rule = "partial-helpers"
+    facts = ctx.facts
+    ctx.rule(rule, "functions of zydeco_syntax that can panic on some argument (an unwrap / expect / panic / arithmetic assert in their own "
+                   "body; Index impls excluded) are called from the front end (surface, statics, session, cli) only if audited: a "
+                   "conversion helper that `expect`s its value to fit (IntegerLiteral::from_value is for results of integer primitives) "
+                   "must not be handed a user literal")
+    partial = {}
+    for fn, bd in facts.bodies().items():
+        if not bd["loc"][0].startswith("lang/syntax/") or "::tests::" in fn or "{closure" in fn:
+            continue
+        if "ops::index::Index" in fn:
+            continue
+        m = facts.mir(fn)
+        if m is None:
+            continue
+        b = M.Body(fn, m)
+        why = []
+        for bb in range(b.n):
+            if b.is_cleanup(bb):
+                continue
+            t = b.term(bb)
+            if t["k"] == "assert" and t.get("msg") != "other":
+                why.append("assert:%s" % t.get("msg"))
+            elif t["k"] == "call" and (t["fn"].startswith("core::panicking::") or re.search(r"(Option|Result)::<.*>::(unwrap|expect)$", t["fn"])):
+                why.append(t["fn"].split("::")[-1])
+        if why:
+            partial[fn] = why
+    ctx.floor(rule, "partial functions in zydeco_syntax", len(partial), 3)
+    ct = facts.calls_to()
+    n = 0
+    for fn in sorted(partial):
+        callers = sorted(set(c["from"].split("::{closure")[0] for c in ct.get(fn, [])
+                             if re.search(r"zydeco_(surface|statics|session|cli)\b|^zydeco::|cajun", c["from"])
+                             and "::tests::" not in c["from"] and not c["loc"][0].endswith("tests.rs")))
+        if not callers:
+            continue
+        n += 1
+        ctx.check(fn in PARTIAL_OK, rule, "%s:front-end-caller" % M.short_fn(fn),
+                  "%s can panic (%s) and is called from the front end by %s: an input that makes it panic is a crash instead of a "
+                  "diagnostic" % (fn, sorted(set(partial[fn])), [M.short_fn(c) for c in callers][:4]),
+                  [facts.bodies()[fn]["loc"][0], facts.bodies()[fn]["loc"][1]],
+                  detail={"callee": fn, "audited": PARTIAL_OK.get(fn), "callers": len(callers)})
+    ctx.floor(rule, "partial helpers reached from the front end", n, 2)
+
+
 def rule_exit_path(ctx):
     rule = "exit-path"
     ctx.rule(rule, "zydeco::main maps Err of Application::run to render() followed by exit(1); no other "
@@ -695,6 +806,8 @@ def run(ctx):
     rule_arm_div(ctx)
     rule_stripped_arena(ctx)
     rule_seal_cycle(ctx)
+    rule_str_slices(ctx)
+    rule_partial_helpers(ctx)
     rule_exit_path(ctx)
     ctx.assume("capacity conversions (usize -> u32 ids/offsets) are out of scope: inputs are below 4 GiB")
     ctx.assume("the ~100 `let .. else { unreachable!(..query-produced..) }` tests of query results in check/mod.rs, "
